@@ -265,6 +265,173 @@ def base_effect(run, P):
             run.violation('base|effect', f'{P.where(b)} {fn} does not return bytes[.. path start + len(directory(path))] of its own text on every path (returns {str(r)[:80]})')
 
 
+def suffix_gate(run, P):
+    """RiRefImpl::suffix: a suffix is returned ONLY when the two scheme options and the two authority options are equal (every CFG path
+    that reaches PathImpl::suffix — the only source of Some — has both comparisons true), it is the suffix of the value's path with respect
+    to the prefix's path, and it is accompanied by the value's own query and fragment"""
+    from .. import pathsens
+    fn = 'common::reference::RiRefImpl::suffix'
+    b = P.body(fn)
+    if b is None:
+        run.violation('suffix|gate', f'{fn} not found')
+        return
+    T = terms.Terms(b)
+
+    def comp(x):
+        while x[0] in ('ref', 'deref'):
+            x = x[1]
+        if x[0] == 'call' and x[2] and x[2][0][0] == 'arg':
+            return (x[1].rsplit('::', 1)[-1], x[2][0][1])
+        return None
+
+    def atom_of(t):
+        if t[0] == 'call' and t[1].endswith('as std::cmp::PartialEq>::eq') and len(t[2]) == 2:
+            a, c = comp(t[2][0]), comp(t[2][1])
+            if a and c and a[0] == c[0] and {a[1], c[1]} == {1, 2} and a[0] in ('scheme_opt', 'scheme', 'authority'):
+                return ('S' if a[0].startswith('scheme') else 'A', False)
+        return None
+    n = 0
+    for path, asm in pathsens.paths(b, T, atom_of):
+        n += 1
+        sc = [b['blocks'][bi]['term'] for bi in path if b['blocks'][bi]['term']['k'] == 'call' and (mir.callee(b['blocks'][bi]['term']) or '') == 'common::path::PathImpl::suffix']
+        if not sc:
+            continue
+        run.count('suffix_some_paths')
+        d = dict(asm)
+        if d.get('S') is not True or d.get('A') is not True:
+            missing = [w for k, w in (('S', 'the schemes'), ('A', 'the authorities')) if d.get(k) is not True]
+            run.violation(f'suffix|gate|{"+".join(missing)}', f'{P.where(b, sc[0].get("l"))} RiRefImpl::suffix can return a suffix on a path where {" and ".join(missing)} of the value and of the prefix are not known to be equal')
+        a1, a2 = [T.operand(x) for x in sc[0]['args']]
+        if not (comp(a1) == ('path', 1) and comp(a2) == ('path', 2)):
+            run.violation('suffix|paths', f'{P.where(b, sc[0].get("l"))} RiRefImpl::suffix does not take the suffix of the value\'s path with respect to the prefix\'s path')
+    run.count('suffix_paths', n)
+    if not run.cov.get('suffix_some_paths'):
+        run.violation('suffix|floor', f'{fn}: no path reaches PathImpl::suffix')
+    # the accompanying query and fragment are the value's own
+    for cn in [x for x in P.bodies if x.startswith(fn + '::{closure')]:
+        ct = terms.Terms(P.bodies[cn]).ret()
+        if ct[0] == 'agg' and ct[1][0] == 'tuple' and len(ct[2]) == 3:
+            q, f = ct[2][1], ct[2][2]
+            okq = q[0] == 'call' and q[1].endswith('::query') and any(x[0] == 'upvar' for x in terms.walk(q))
+            okf = f[0] == 'call' and f[1].endswith('::fragment') and any(x[0] == 'upvar' for x in terms.walk(f))
+            cc = None
+            if not (okq and okf):
+                run.violation('suffix|qf', f'{cn}: the suffix is not accompanied by the query and fragment of the value')
+
+
+def suffix_lockstep(run, P):
+    """PathImpl::suffix: None unless both paths are absolute or both relative; then the two normalised-segment iterators are consumed in
+    lockstep, and ONE ITERATION of the loop does exactly this, for every combination of (value has a segment, prefix has a segment, equal):
+        (Some, Some, equal)  -> next iteration, nothing pushed        (Some, Some, different) -> return None
+        (None, Some)         -> return None                           (Some, None)           -> push THAT segment of the value, next iteration
+        (None, None)         -> leave the loop and return Some(buffer)
+    (both iterators are smallvec::IntoIter, which stay exhausted once exhausted). Decided on every CFG path of one iteration."""
+    from .. import pathsens
+    from ..symex import loop_info
+    fn = 'common::path::PathImpl::suffix'
+    b = P.body(fn)
+    if b is None:
+        run.violation('suffix|loop', f'{fn} not found')
+        return
+    T = terms.Terms(b)
+    loops = loop_info(b)
+    if len(loops) != 1:
+        run.violation('suffix|loop', f'{P.where(b)} {fn}: {len(loops)} loops (1 expected)')
+        return
+    header = next(iter(loops))
+    # which iterator a local holds: normalized_segments(self) = A (the value), normalized_segments(prefix) = B
+    it_of = {}
+    for bi, t in P.calls(b):
+        c = mir.callee(t) or ''
+        if c.endswith('::normalized_segments') and t['args']:
+            a = T.operand(t['args'][0])
+            if a[0] == 'arg' and a[1] in (1, 2):
+                it_of[t['dest']['local']] = 'A' if a[1] == 1 else 'B'
+    if sorted(it_of.values()) != ['A', 'B']:
+        run.violation('suffix|iters', f'{P.where(b)} {fn}: the two normalised-segment iterators (of the value and of the prefix) were not found')
+        return
+
+    def iter_tag(op):
+        x = T.operand(op)
+        while x[0] in ('ref', 'deref'):
+            x = x[1]
+        return it_of.get(x[1]) if x[0] == 'local' else None
+    next_tag = {}
+    for bi, t in P.calls(b):
+        if (mir.callee(t) or '').endswith('Iterator>::next') and t['args']:
+            # &mut _it : find the local through the defining statement
+            l = t['args'][0]['place']['local'] if t['args'][0]['k'] in ('copy', 'move') else None
+            src = None
+            for bl in b['blocks']:
+                for st in bl['stmts']:
+                    if st['k'] == 'assign' and st['place']['local'] == l and st['rv']['k'] == 'ref' and not st['rv']['place']['proj']:
+                        src = st['rv']['place']['local']
+            if src in it_of:
+                next_tag[t['dest']['local']] = it_of[src]
+
+    def call_value(t):
+        return ('opt', next_tag[t['dest']['local']]) if t['dest']['local'] in next_tag and (mir.callee(t) or '').endswith('Iterator>::next') else None
+
+    def payload_of(x):
+        """'A' / 'B' when the term is (a projection of) the payload of next() of the value's / the prefix's normalised-segment iterator"""
+        tags = set()
+        for n in terms.walk(x):
+            if n[0] == 'call' and n[1].endswith('Iterator>::next') and n[2]:
+                for m in terms.walk(n[2][0]):
+                    if m[0] == 'call' and m[1].endswith('::normalized_segments') and m[2] and m[2][0][0] == 'arg' and m[2][0][1] in (1, 2):
+                        tags.add('A' if m[2][0][1] == 1 else 'B')
+            elif n[0] == 'local' and n[1] in next_tag:
+                tags.add(next_tag[n[1]])
+        return tags.pop() if len(tags) == 1 else None
+
+    def atom_of(t):
+        if t[0] == 'call' and (t[1].endswith('Iterator::eq') or t[1].endswith('PartialEq>::eq') or t[1].endswith('::eq')) and len(t[2]) == 2:
+            pa, pb = payload_of(t[2][0]), payload_of(t[2][1])
+            if {pa, pb} == {'A', 'B'}:
+                return ('EQ', False)
+        return None
+    seen = {}
+    for path, asm, stop in pathsens.paths(b, T, atom_of, start=header, stop={header}, call_value=call_value):
+        run.count('suffix_iteration_paths')
+        d = dict(asm)
+        a, bb_, eq = d.get('A.some'), d.get('B.some'), d.get('EQ')
+        pushes = []
+        for bi in path:
+            t = b['blocks'][bi]['term']
+            if t['k'] == 'call' and (mir.callee(t) or '').endswith('::push') and len(t['args']) == 2:
+                pushes.append(payload_of(T.operand(t['args'][1])))
+        if stop is not None:
+            kind = 'continue'
+        else:
+            rv = None
+            for bi in path:
+                for st in b['blocks'][bi]['stmts']:
+                    if st['k'] == 'assign' and st['place']['local'] == 0 and not st['place']['proj'] and st['rv']['k'] == 'aggregate':
+                        rv = st['rv']['kind'].get('variant')
+            kind = 'some' if rv == 1 else 'none' if rv == 0 else '?'
+        case = (a, bb_, eq if (a and bb_) else None)
+        if a is None or bb_ is None or (a and bb_ and eq is None):
+            miss = 'the value still has a segment' if a is None else 'the prefix still has a segment' if bb_ is None else 'the two segments are equal'
+            act0 = {'continue': 'goes on', 'none': 'returns None', 'some': 'returns Some(buffer)', '?': 'returns'}[kind]
+            run.violation(f'suffix|lockstep|undetermined|{kind}', f'{P.where(b)} {fn}: an iteration {act0} without having determined whether {miss}'
+                          + (' — a prefix that is longer than the value would still yield a suffix' if kind == 'some' and bb_ is None else ''))
+            continue
+        want = {(True, True, True): ('continue', []), (True, True, False): ('none', []), (False, True, None): ('none', []),
+                (True, False, None): ('continue', ['A']), (False, False, None): ('some', [])}[case]
+        seen[case] = True
+        if (kind, pushes) != want:
+            txt = {(True, True, True): 'both have a segment and they are equal', (True, True, False): 'both have a segment and they differ', (False, True, None): 'the value is exhausted but the prefix is not',
+                   (True, False, None): 'the prefix is exhausted and the value has a segment', (False, False, None): 'both are exhausted'}[case]
+            act = {'continue': 'goes on', 'none': 'returns None', 'some': 'returns Some(buffer)', '?': 'returns something else'}
+            run.violation(f'suffix|lockstep|{case}', f'{P.where(b)} {fn}: when {txt}, an iteration {act[kind]}{" after pushing " + str(pushes) if pushes else ""} — expected: {act[want[0]]}{" after pushing the value segment" if want[1] else ""}')
+    if len(seen) < 5:
+        run.violation('suffix|lockstep|cases', f'{P.where(b)} {fn}: only {len(seen)} of the 5 cases of the lockstep comparison were found')
+    # the absolute / relative gate in front of the loop
+    calls = [mir.callee(t) or '' for _, t in P.calls(b)]
+    if calls.count('common::path::PathImpl::is_absolute') < 2 and calls.count('common::path::PathImpl::is_relative') < 2:
+        run.violation('suffix|kind-gate', f'{P.where(b)} {fn}: does not compare the absoluteness of the two paths')
+
+
 def _implies_slash(assume, i):
     """atoms: E = (i == 0), B = (byte at i is '/').  usize: (i > 0) == not E.  The assumed literals must entail B."""
     lits = []
@@ -315,6 +482,8 @@ def main(run):
         else:
             run.violation('directory|last', f'{P.where(db)} PathImpl::directory: cannot establish that the "/" it cuts after is the LAST one (neither a backward scan nor rposition)')
     base_effect(run, P)
+    suffix_gate(run, P)
+    suffix_lockstep(run, P)
     scratch = Run('C16-sites', run.tier, '__none__')
     _, res = sites.check(scratch, P, 'C16')
     nb = [r for r in res if r[3] == 'LEMMA' and r[0]['name'].endswith('::base')]
